@@ -9,6 +9,7 @@ pub fn load_builtins(vm: &mut Vm) {
     vm.load_builtin("car", car);
     vm.load_builtin("cdr", cdr);
     vm.load_builtin("cons", cons);
+    vm.load_builtin("length", length);
     vm.load_builtin("list-ref", list_ref);
     vm.load_builtin("list-tail", list_tail);
     vm.load_builtin("reverse", reverse);
@@ -75,6 +76,32 @@ pub fn set_cdr(vm: &mut Vm) -> Result<VCell, Error> {
 /// # Arguments
 /// `vm` - The vm in which to allocate the list
 /// `list` - The list to clone
+pub fn length(vm: &mut Vm) -> Result<VCell, Error> {
+    pop_argc(vm, 1, Some(1), "length")?;
+    let list = vm.heap.get(vm.stack.pop()?);
+    // count with two cursors, one at twice the speed of the other, so that a
+    // circular list is reported instead of being followed forever
+    let mut rest = list.clone();
+    let mut slow = list.clone();
+    let mut len: usize = 0;
+    loop {
+        for _ in 0..2 {
+            match rest {
+                VCell::Nil => return Ok(VCell::number(len)),
+                VCell::Pair(_, _) => {
+                    len += 1;
+                    rest = vm.heap.get(&rest.as_cdr()?);
+                }
+                _ => return Err(ExpectedPairButFound(vm.heap.get_as_cell(&rest))),
+            }
+        }
+        slow = vm.heap.get(&slow.as_cdr()?);
+        if rest.is_pair() && rest == slow {
+            return Err(InvalidSyntax("length: the list is circular".into()));
+        }
+    }
+}
+
 fn clone_list(vm: &mut Vm, list: VCell) -> Result<(VCell, VCell), Error> {
     let mut rest = list.clone();
     if !rest.is_pair() {
